@@ -4,67 +4,55 @@ Import ListNotations.
 From FP Require Import Validate Effects.
 Set Default Timeout 60.
 
-Lemma frame_quiet h o : quiet h o = true -> step h o = h.
+Section Gen.
+Variable hold_of : cls -> hold.
+Lemma frame_quiet h o : quiet_gen hold_of h o = true -> step_gen hold_of h o = h.
 Proof.
-  unfold quiet, step. destruct (negb (o_pass_opts o) || is_empty (h_opts h)); cbn; [reflexivity|].
-  destruct (opts_hold (o_cls o)); try reflexivity; try discriminate.
+  unfold quiet_gen, step_gen. destruct (negb (o_pass_opts o) || is_empty (h_opts h)); cbn; [reflexivity|].
+  destruct (hold_of (o_cls o)); try reflexivity; try discriminate.
   destruct (o_solve o); cbn; [discriminate|reflexivity].
 Qed.
+Lemma run_quiet ops : forall h, Forall (fun o => quiet_gen hold_of h o = true) ops -> run_gen hold_of ops h = h.
+Proof.
+  induction ops as [|o r IH]; intros h F; [reflexivity|].
+  inversion F as [|? ? Q F']; subst. change (run_gen hold_of (o :: r) h) with (run_gen hold_of r (step_gen hold_of h o)).
+  rewrite (frame_quiet h o Q). apply IH. exact F'.
+Qed.
+End Gen.
 
-(* classes whose summary never writes: every argument vector, every heap *)
-Definition frame_class (c : cls) : bool :=
-  match opts_hold c with Copy | AliasReadOnly => true | _ => false end.
-Lemma frame_of_class h o : frame_class (o_cls o) = true -> step h o = h.
-Proof.
-  intros F. apply frame_quiet. unfold quiet, frame_class in *.
-  destruct (opts_hold (o_cls o)); try discriminate; apply orb_true_r.
-Qed.
-(* the other classes leave the heap alone when optimization_options is omitted or empty *)
-Lemma frame_omitted_or_empty h o : o_pass_opts o = false \/ h_opts h = [] -> step h o = h.
-Proof.
-  intros [E|E]; apply frame_quiet; unfold quiet; rewrite E; cbn; [reflexivity|].
-  destruct (negb (o_pass_opts o)); reflexivity.
-Qed.
+(* ---------------------------------------------------------------- the current code: frame, for every class and argument vector *)
+Lemma all_quiet h o : quiet_gen opts_hold h o = true.
+Proof. unfold quiet_gen. destruct (o_cls o); cbn; apply orb_true_r. Qed.
+Theorem frame h o : step h o = h.
+Proof. apply frame_quiet. apply all_quiet. Qed.
+Theorem run_frame ops h : run ops h = h.
+Proof. apply run_quiet. apply Forall_forall. intros o _. apply all_quiet. Qed.
+Theorem history_independent ops h o : model_of (run ops h) o = model_of h o.
+Proof. rewrite run_frame. reflexivity. Qed.
 
 Definition ex_heap : heap :=
   {| h_graph := []; h_opts := [KUser 0]; h_sopts := [1]; h_cons := [2]; h_ign := []; h_starts := []; h_ends := []; h_defaults := [] |}.
 Definition mk_op c p s hc sv := {| o_cls := c; o_pass_opts := p; o_sup := s; o_hc := hc; o_solve := sv |}.
 
-(* DESIGN #16: `optimization_options or {}` aliases a non-empty caller dict and writes into it *)
-Lemma frame_refuted_kLeastAbsErrors : exists h o, o_cls o = CkLeastAbsErrors /\ step h o <> h.
-Proof. exists ex_heap, (mk_op CkLeastAbsErrors true false false true). split; [reflexivity|]. vm_compute. discriminate. Qed.
-Lemma frame_refuted_all_aliasing c :
-  opts_hold c = AliasIfNonEmpty \/ opts_hold c = AliasForward -> exists h o, o_cls o = c /\ step h o <> h.
+(* ---------------------------------------------------------------- old behaviour (before 5ed9792) *)
+(* DESIGN #16: `optimization_options or {}` aliased a non-empty caller dict and wrote into it *)
+Lemma old_frame_refuted c :
+  old_opts_hold c = AliasIfNonEmpty \/ old_opts_hold c = AliasForward -> exists h o, o_cls o = c /\ old_step h o <> h.
 Proof.
   intros H. exists ex_heap, (mk_op c true false false true). split; [reflexivity|].
   destruct c; cbn in H; destruct H as [H|H]; try discriminate; vm_compute; discriminate.
 Qed.
-
-(* arbitrary histories of quiet operations leave the heap unchanged ... *)
-Lemma run_quiet ops : forall h, Forall (fun o => quiet h o = true) ops -> run ops h = h.
-Proof.
-  induction ops as [|o r IH]; intros h F; [reflexivity|].
-  inversion F as [|? ? Q F']; subst. change (run (o :: r) h) with (run r (step h o)).
-  rewrite (frame_quiet h o Q). apply IH. exact F'.
-Qed.
-(* ... so the model constructed at the end of the history is the one constructed from the initial heap *)
-Theorem history_independent ops h o :
-  Forall (fun o' => quiet h o' = true) ops -> model_of (run ops h) o = model_of h o.
-Proof. intros F. rewrite (run_quiet ops h F). reflexivity. Qed.
-Corollary history_independent_frame_classes ops h o :
-  Forall (fun o' => frame_class (o_cls o') = true) ops -> model_of (run ops h) o = model_of h o.
-Proof.
-  intros F. apply history_independent. eapply Forall_impl; [|exact F].
-  intros a Fa. unfold quiet, frame_class in *. destruct (opts_hold (o_cls a)); try discriminate; apply orb_true_r.
-Qed.
-
-(* a kMinPathError with given weights pollutes the shared dict; a later kLeastAbsErrors sees allow_empty_paths etc. *)
-Theorem history_independent_refuted :
-  exists ops h o, model_of (run ops h) o <> model_of h o.
+(* a kMinPathError with given weights polluted the shared dict; a later kLeastAbsErrors saw allow_empty_paths etc. *)
+Theorem old_history_independent_refuted :
+  exists ops h o, model_of (old_run ops h) o <> model_of h o.
 Proof.
   exists [mk_op CkMinPathError true true false true], ex_heap, (mk_op CkLeastAbsErrors true false false true).
   vm_compute. discriminate.
 Qed.
+(* what did hold for the old code: heap-preserving histories *)
+Theorem old_history_independent_partial ops h o :
+  Forall (fun o' => quiet_gen old_opts_hold h o' = true) ops -> model_of (old_run ops h) o = model_of h o.
+Proof. intros F. unfold old_run. rewrite (run_quiet old_opts_hold ops h F). reflexivity. Qed.
 
 (* writing is idempotent: constructing the same thing again adds nothing more *)
 Lemma has_key_app k d d' : has_key k (d ++ d') = has_key k d || has_key k d'.
@@ -105,52 +93,33 @@ Proof.
   change (set_keys (set_key d a) r <> []). apply IH.
   unfold set_key. destruct (has_key a d); auto. destruct d; [congruence|discriminate].
 Qed.
-Theorem step_idempotent h o : step (step h o) o = step h o.
+(* for ANY effect summary of this shape (old or new): only optimization_options can ever be touched, no caller key is lost *)
+Lemma step_only_opts hold_of h o :
+  let h' := step_gen hold_of h o in
+  h_graph h' = h_graph h /\ h_sopts h' = h_sopts h /\ h_cons h' = h_cons h /\
+  h_ign h' = h_ign h /\ h_starts h' = h_starts h /\ h_ends h' = h_ends h /\ h_defaults h' = h_defaults h.
 Proof.
-  unfold step at 2 3. destruct (negb (o_pass_opts o) || is_empty (h_opts h)) eqn:E.
-  - unfold step. rewrite E. reflexivity.
-  - apply orb_false_elim in E as [E1 E2].
-    assert (NE : h_opts h <> []) by (destruct (h_opts h); [discriminate|discriminate]).
-    destruct (opts_hold (o_cls o)) eqn:Hh; try (unfold step; rewrite E1, E2, Hh; reflexivity).
-    + unfold step. cbn [h_opts with_opts]. rewrite E1, Hh. cbn [orb].
-      destruct (is_empty (set_keys (h_opts h) _)) eqn:E3.
-      * exfalso. apply (set_keys_nonempty (ctor_writes (o_cls o) (o_sup o) (o_hc o)) _ NE).
-        destruct (set_keys _ _); [reflexivity|discriminate].
-      * unfold with_opts. cbn. rewrite set_keys_idem. reflexivity.
-    + destruct (o_solve o) eqn:S; [|unfold step; rewrite E1, E2, Hh, S; reflexivity].
-      unfold step. cbn [h_opts with_opts]. rewrite E1, Hh, S. cbn [orb].
-      destruct (is_empty (set_keys (h_opts h) _)) eqn:E3.
-      * exfalso. apply (set_keys_nonempty (solve_writes (o_cls o)) _ NE).
-        destruct (set_keys _ _); [reflexivity|discriminate].
-      * unfold with_opts. cbn. rewrite set_keys_idem. reflexivity.
+  unfold step_gen. destruct (negb (o_pass_opts o) || is_empty (h_opts h)); [repeat split|].
+  destruct (hold_of (o_cls o)); try (repeat split); destruct (o_solve o); repeat split.
 Qed.
-
-(* only optimization_options is ever touched: every other shared object keeps its value over any history *)
-Lemma step_only_opts h o :
-  h_graph (step h o) = h_graph h /\ h_sopts (step h o) = h_sopts h /\ h_cons (step h o) = h_cons h /\
-  h_ign (step h o) = h_ign h /\ h_starts (step h o) = h_starts h /\ h_ends (step h o) = h_ends h /\
-  h_defaults (step h o) = h_defaults h.
-Proof.
-  unfold step. destruct (negb (o_pass_opts o) || is_empty (h_opts h)); [repeat split|].
-  destruct (opts_hold (o_cls o)); try (repeat split); destruct (o_solve o); repeat split.
-Qed.
-Theorem run_only_opts ops : forall h,
-  h_graph (run ops h) = h_graph h /\ h_sopts (run ops h) = h_sopts h /\ h_cons (run ops h) = h_cons h /\
-  h_ign (run ops h) = h_ign h /\ h_starts (run ops h) = h_starts h /\ h_ends (run ops h) = h_ends h /\
-  h_defaults (run ops h) = h_defaults h.
+Theorem run_only_opts hold_of ops : forall h,
+  let h' := run_gen hold_of ops h in
+  h_graph h' = h_graph h /\ h_sopts h' = h_sopts h /\ h_cons h' = h_cons h /\
+  h_ign h' = h_ign h /\ h_starts h' = h_starts h /\ h_ends h' = h_ends h /\ h_defaults h' = h_defaults h.
 Proof.
   induction ops as [|o r IH]; intros h; [repeat split|].
-  change (run (o :: r) h) with (run r (step h o)).
-  destruct (IH (step h o)) as (A & B & C & D & E & F & G).
-  destruct (step_only_opts h o) as (A' & B' & C' & D' & E' & F' & G').
-  repeat split; congruence.
+  change (run_gen hold_of (o :: r) h) with (run_gen hold_of r (step_gen hold_of h o)).
+  destruct (IH (step_gen hold_of h o)) as (A & B & C & D & E & F & G).
+  destruct (step_only_opts hold_of h o) as (A' & B' & C' & D' & E' & F' & G').
+  cbv zeta in *. repeat split; congruence.
 Qed.
-(* and the caller's own keys are never removed *)
-Theorem run_keeps_keys ops : forall h k, has_key k (h_opts h) = true -> has_key k (h_opts (run ops h)) = true.
+Theorem run_keeps_keys hold_of ops : forall h k,
+  has_key k (h_opts h) = true -> has_key k (h_opts (run_gen hold_of ops h)) = true.
 Proof.
-  induction ops as [|o r IH]; intros h k H; [exact H|]. change (run (o :: r) h) with (run r (step h o)). apply IH.
-  unfold step. destruct (negb (o_pass_opts o) || is_empty (h_opts h)); [exact H|].
-  destruct (opts_hold (o_cls o)); try exact H.
+  induction ops as [|o r IH]; intros h k H; [exact H|].
+  change (run_gen hold_of (o :: r) h) with (run_gen hold_of r (step_gen hold_of h o)). apply IH.
+  unfold step_gen. destruct (negb (o_pass_opts o) || is_empty (h_opts h)); [exact H|].
+  destruct (hold_of (o_cls o)); try exact H.
   - cbn. apply set_keys_keeps. exact H.
   - destruct (o_solve o); [cbn; apply set_keys_keeps|]; exact H.
 Qed.
@@ -165,7 +134,3 @@ Proof.
   - destruct (ms_solved m) eqn:S; cbn; [auto|]. rewrite C, S. cbn. rewrite C, S. auto.
 Qed.
 
-Theorem full_statement_refuted18 : ~ (forall h o, step h o = h).
-Proof.
-  intros F. destruct frame_refuted_kLeastAbsErrors as (h & o & _ & N). apply N. apply F.
-Qed.
